@@ -154,6 +154,29 @@ func argErr(c *Ctx, key string, want Type) Exp {
 
 const maxSafeMs = int64(1) << 53
 
+// bigExpire classifies a positive EX/PX/EXAT/PXAT value the way Redis 7 validates it: seconds that do not fit
+// in milliseconds and relative times that overflow when added to the clock are errors ("invalid expire time");
+// accepted deadlines beyond 2^53 ms are left unspecified (the clock interval arithmetic is not exact there).
+func bigExpire(c *Ctx, n int64, kind string) (isErr, unspec bool) {
+	if (kind == "EX" || kind == "EXAT") && n > math.MaxInt64/1000 {
+		return true, false
+	}
+	ms := n
+	if kind == "EX" || kind == "EXAT" {
+		ms = n * 1000
+	}
+	if kind == "EX" || kind == "PX" {
+		if ms > math.MaxInt64-c.Now {
+			return true, false
+		}
+		if ms > math.MaxInt64-c.NowHi {
+			return false, true
+		}
+		ms += c.NowHi
+	}
+	return false, ms > maxSafeMs
+}
+
 func setex(c *Ctx, key, tstr, val string, unit int64) Exp {
 	n, ok := parseInt(tstr)
 	if !ok {
@@ -165,7 +188,13 @@ func setex(c *Ctx, key, tstr, val string, unit int64) Exp {
 	if n <= 0 {
 		return ErrExp("ERR")
 	}
-	if n > maxSafeMs/unit {
+	kind := "PX"
+	if unit == 1000 {
+		kind = "EX"
+	}
+	if isErr, unspec := bigExpire(c, n, kind); isErr {
+		return ErrExp("ERR")
+	} else if unspec {
 		return Unspecified("expire time beyond 2^53 ms")
 	}
 	c.set(key, &Obj{T: TString, S: []byte(val), Deadline: c.Now + n*unit, DeadlineHi: c.NowHi + n*unit})
@@ -226,7 +255,9 @@ func cmdSet(c *Ctx, a []string) Exp {
 				}
 			} else if n <= 0 {
 				synErr = true
-			} else if n > maxSafeMs/1000 {
+			} else if isErr, unspec := bigExpire(c, n, u); isErr {
+				synErr = true
+			} else if unspec {
 				ex.unspec = true
 			}
 			ex.kind, ex.val, ex.present = u, n, true
@@ -316,7 +347,9 @@ func cmdGetEx(c *Ctx, a []string) Exp {
 				}
 			} else if n <= 0 {
 				synErr = true
-			} else if n > maxSafeMs/1000 {
+			} else if isErr, unspec := bigExpire(c, n, u); isErr {
+				synErr = true
+			} else if unspec {
 				ex.unspec = true
 			}
 			ex.kind, ex.val, ex.present = u, n, true
@@ -512,7 +545,17 @@ func parseFloat(s string) (f float64, ok bool, unspec bool) {
 
 func fmtFloat(f float64) string { return strconv.FormatFloat(f, 'f', -1, 64) }
 
+// infNaN: the spellings of infinity / NaN; as an increment they are an error in every Redis version
+// (either rejected by the parser or by the "would produce NaN or Infinity" check), only the text differs.
+func infNaN(s string) bool {
+	l := strings.TrimLeft(strings.ToLower(s), "+-")
+	return l == "inf" || l == "infinity" || l == "nan"
+}
+
 func cmdIncrByFloat(c *Ctx, a []string) Exp {
+	if infNaN(a[1]) {
+		return AnyErr()
+	}
 	d, ok, unspec := parseFloat(a[1])
 	if unspec {
 		return Unspecified("float argument form")
